@@ -388,6 +388,32 @@ func Run(cs Case, c *vrt.Ctx) {
 			// the same through the reader entry point, however the text arrives (1, 2, 3, 5 and 7
 			// byte reads put every token boundary and every string start on a chunk end), also
 			// for the indented text and on a parser that has read other documents before
+			// other spellings of the same numbers (integer mantissa with an exponent, upper case
+			// exponent, trailing zeros): the two parsers finish a number in code of their own
+			for mode := 1; mode <= 3; mode++ {
+				rt := gx.RespellFloats([]byte(text), mode)
+				if string(rt) == text {
+					continue
+				}
+				c.Class("respelled-floats")
+				rsp, rgp := oj.Parser{}, gen.Parser{}
+				rsv, rerr1 := rsp.Parse(rt)
+				rgv, rerr2 := rgp.Parse(rt)
+				if rerr1 != nil || rerr2 != nil {
+					c.Fail("parser-error-differs", "gen.Parser", fmt.Sprintf("oj: %v gen: %v on the respelled text %s", rerr1, rerr2, clip(string(rt))))
+					continue
+				}
+				var rx, ry any
+				if g := alt.Generify(rsv, keepAll); g != nil {
+					rx = g
+				}
+				if rgv != nil {
+					ry = rgv
+				}
+				if !canon.Same(rx, ry) {
+					c.Fail("gen-parser-differs", "gen.Parser", fmt.Sprintf("Generify(oj.Parse)=%s gen.Parse=%s on the respelled text %s", clip(canon.String(rx, canon.Typed)), clip(canon.String(ry, canon.Typed)), clip(string(rt))))
+				}
+			}
 			for _, txt := range []string{text, oj.JSON(tree, &ojg.Options{Sort: true, Indent: 2})} {
 				for _, size := range []int{1, 2, 3, 5, 7} {
 					gr := &gen.Parser{}
